@@ -544,4 +544,156 @@ theorem identOf_block (b : Block) (h1 : b.hdr.hashPrevBlock.length = 32) (h2 : b
   simp only [h1, h2, ne_eq, not_true_eq_false, if_false, bind, Except.bind, pure, Except.pure]
   cases Model.Wire.serHeader b.hdr <;> rfl
 
+/-! ### the fourth GetScriptOp (C03/C04's, returning the operation's size) and CODESEPARATOR removal -/
+
+theorem drop_helper (b : UInt8) (r : Bytes) (w n : Nat) :
+    (r.drop w).drop n = (b :: r).drop (1 + w + n) := by
+  have : 1 + w + n = (w + n) + 1 := by omega
+  rw [this, List.drop_succ_cons, List.drop_drop]
+
+open Spec.Script in
+/-- C03's GetOp against C06's: same opcode byte, size = bytes consumed, rest = what is left -/
+theorem sighash_getOp (b : UInt8) (r : Bytes) :
+    match Ref.getOp (b :: r) with
+    | none => Spec.Sighash.getOp (b :: r) = none
+    | some (o, _, rest) =>
+        ∃ n, Spec.Sighash.getOp (b :: r) = some (b, n) ∧ 1 ≤ n ∧ n ≤ (b :: r).length ∧
+          rest = (b :: r).drop n ∧ o = b.toNat := by
+  simp only [Ref.getOp, Spec.Sighash.getOp]
+  by_cases h1 : b.toNat ≤ 0x4e
+  · simp only [h1, if_true]
+    by_cases h2 : b.toNat < 0x4c
+    · simp only [h2, if_true]
+      by_cases h6 : r.length < b.toNat
+      · have : r.length - 0 < b.toNat := by omega
+        simp [h6]
+      · have : ¬ r.length - 0 < b.toNat := by omega
+        simp only [h6, if_false, this]
+        exact ⟨1 + 0 + b.toNat, rfl, by omega, by simp; omega, by simpa using drop_helper b r 0 b.toNat, trivial⟩
+    · simp only [h2, if_false]
+      by_cases h3 : b.toNat = 0x4c
+      · simp only [h3, if_true]
+        by_cases hk : r.length < 1
+        · simp [hk]
+        · simp only [hk, if_false]
+          by_cases h6 : (r.drop 1).length < leNat (r.take 1)
+          · have : r.length - 1 < leNat (r.take 1) := by simpa using h6
+            simp [h6, this]
+          · have : ¬ r.length - 1 < leNat (r.take 1) := by simpa using h6
+            simp only [h6, if_false, this]
+            refine ⟨1 + 1 + leNat (r.take 1), rfl, by omega, ?_, drop_helper b r 1 _, trivial⟩
+            simp at h6 ⊢; omega
+      · simp only [h3, if_false]
+        by_cases h4 : b.toNat = 0x4d
+        · simp only [h4, if_true]
+          by_cases hk : r.length < 2
+          · simp [hk]
+          · simp only [hk, if_false]
+            by_cases h6 : (r.drop 2).length < leNat (r.take 2)
+            · have : r.length - 2 < leNat (r.take 2) := by simpa using h6
+              simp [h6, this]
+            · have : ¬ r.length - 2 < leNat (r.take 2) := by simpa using h6
+              simp only [h6, if_false, this]
+              refine ⟨1 + 2 + leNat (r.take 2), rfl, by omega, ?_, drop_helper b r 2 _, trivial⟩
+              simp at h6 ⊢; omega
+        · simp only [h4, if_false]
+          by_cases hk : r.length < 4
+          · simp [hk]
+          · simp only [hk, if_false]
+            by_cases h6 : (r.drop 4).length < leNat (r.take 4)
+            · have : r.length - 4 < leNat (r.take 4) := by simpa using h6
+              simp [h6, this]
+            · have : ¬ r.length - 4 < leNat (r.take 4) := by simpa using h6
+              simp only [h6, if_false, this]
+              refine ⟨1 + 4 + leNat (r.take 4), rfl, by omega, ?_, drop_helper b r 4 _, trivial⟩
+              simp at h6 ⊢; omega
+  · simp only [h1, if_false]
+    exact ⟨1, rfl, by omega, by simp, by simp, trivial⟩
+
+open Spec.Script in
+theorem skipMatches_ab_cons (t : Bytes) : Ref.skipMatches [0xab] (0xab :: t) = Ref.skipMatches [0xab] t := by
+  rw [Ref.skipMatches]
+  simp
+
+open Spec.Script in
+theorem skipMatches_ab_other (s : Bytes) (h : s.head? ≠ some 0xab) : Ref.skipMatches [0xab] s = s := by
+  rw [Ref.skipMatches]
+  have : ¬ (([0xab] : Bytes) ≠ [] ∧ ([0xab] : Bytes).isPrefixOf s = true) := by
+    intro ⟨_, hp⟩
+    cases s with
+    | nil => simp [List.isPrefixOf] at hp
+    | cons b t =>
+      simp only [List.isPrefixOf, Bool.and_eq_true, beq_iff_eq] at hp
+      exact h (by simp [hp.1])
+  simp only [this, dite_false]
+
+open Spec.Script in
+theorem fadLoop_unfold (b s : Bytes) :
+    Ref.fadLoop b s =
+      match Ref.getOp (Ref.skipMatches b s) with
+      | none => Ref.skipMatches b s
+      | some (_, _, rest) =>
+        (Ref.skipMatches b s).take ((Ref.skipMatches b s).length - rest.length) ++ Ref.fadLoop b rest := by
+  rw [Ref.fadLoop]
+  split <;> rename_i h <;> simp [h]
+
+theorem scNoSep_unfold (s : Bytes) :
+    Spec.Sighash.scriptCodeNoSep s =
+      match Spec.Sighash.getOp s with
+      | none => s
+      | some (op, n) =>
+        (if op = Spec.Sighash.OP_CODESEPARATOR then [] else s.take n) ++ Spec.Sighash.scriptCodeNoSep (s.drop n) := by
+  rw [Spec.Sighash.scriptCodeNoSep]
+  split <;> rename_i h <;> simp [h]
+
+open Spec.Script in
+/-- removing OP_CODESEPARATOR operations: Core's `FindAndDelete(script, [OP_CODESEPARATOR])` (C06's
+    reference) and C03's reference `scriptCodeNoSep` agree on every byte string, parsing or not -/
+theorem fad_codesep : ∀ (n : Nat) (s : Bytes), s.length = n →
+    Ref.findAndDelete s [0xab] = Spec.Sighash.scriptCodeNoSep s := by
+  intro n
+  induction n using Nat.strongRecOn with
+  | _ n ih =>
+    intro s hn
+    have hne : ¬ (([0xab] : Bytes) = []) := by simp
+    have ihf : ∀ t : Bytes, t.length < n → Ref.fadLoop [0xab] t = Spec.Sighash.scriptCodeNoSep t := by
+      intro t ht
+      have := ih t.length ht t rfl
+      unfold Ref.findAndDelete at this
+      simpa only [hne, if_false] using this
+    unfold Ref.findAndDelete
+    simp only [hne, if_false]
+    cases s with
+    | nil =>
+      rw [fadLoop_unfold, scNoSep_unfold, skipMatches_ab_other [] (by simp)]
+      simp [Ref.getOp, Spec.Sighash.getOp]
+    | cons b r =>
+      by_cases hb : b = 0xab
+      · subst hb
+        have hg : Spec.Sighash.getOp (0xab :: r) = some (0xab, 1) := by
+          simp [Spec.Sighash.getOp]
+        rw [scNoSep_unfold, hg]
+        simp only [Spec.Sighash.OP_CODESEPARATOR, if_true, List.nil_append, List.drop_succ_cons, List.drop_zero]
+        rw [← ihf r (by simp at hn; omega), fadLoop_unfold, fadLoop_unfold [0xab] r, skipMatches_ab_cons]
+      · have hs : Ref.skipMatches [0xab] (b :: r) = b :: r := skipMatches_ab_other _ (by simp [hb])
+        have hget := sighash_getOp b r
+        rw [fadLoop_unfold, scNoSep_unfold, hs]
+        cases hq : Ref.getOp (b :: r) with
+        | none =>
+          rw [hq] at hget
+          simp only at hget
+          rw [hget]
+        | some x =>
+          obtain ⟨o, d, rest⟩ := x
+          rw [hq] at hget
+          simp only at hget
+          obtain ⟨k, hk, hk1, hk2, hrest, _⟩ := hget
+          have hlen : (b :: r).length - rest.length = k := by
+            rw [hrest, List.length_drop]; omega
+          have hb' : ¬ (b = Spec.Sighash.OP_CODESEPARATOR) := by
+            simpa [Spec.Sighash.OP_CODESEPARATOR] using hb
+          rw [hk]
+          simp only [hb', if_false, hlen]
+          rw [ihf rest (by rw [hrest, List.length_drop, ← hn]; omega), hrest]
+
 end BtcVerif.CoherenceProofs
